@@ -224,12 +224,17 @@ def modelOf (c : Case) : Except String (M Val) := do
     let p ← bytes p
     let mode ← nat mode
     pure (mapVal (fun _ => .unit) (Root.create env root p (.directory mode)))
-  | ["mknod", mode, dev, p] => do
+  | "mknod" :: mode :: dev :: p :: rest => do
     let p ← bytes p
     let mode ← nat mode
     let dev ← nat dev
+    -- an optional fifth token: file-type bits left in the `Permissions` value (the library must ignore them)
+    let ptype ← match rest with
+      | [] => pure 0
+      | [t] => nat t
+      | _ => .error "mknod: too many tokens"
     let fmt := mode &&& S_IFMT
-    let perm := clearBits mode S_IFMT
+    let perm := clearBits mode S_IFMT ||| ptype
     let ty : InodeType :=
       if fmt = S_IFIFO then .fifo perm
       else if fmt = S_IFCHR then .charDev perm dev
